@@ -86,6 +86,12 @@ func Sensitivity(prop string) map[string]interface{} {
 			vs = append(vs, Variant{Name: "seeded " + filepath.Base(filepath.Dir(sp)), Kind: "break", Patch: sp})
 		}
 	}
+	// independently written behaviour-preserving changes kept under /verif/refactors/<PROP>-*/patch.diff
+	if refs, _ := filepath.Glob(filepath.Join(core.VerifDir(), "refactors", prop+"-*", "patch.diff")); refs != nil {
+		for _, sp := range refs {
+			vs = append(vs, Variant{Name: "refactor " + filepath.Base(filepath.Dir(sp)), Kind: "equiv", Patch: sp})
+		}
+	}
 	self, _ := os.Executable()
 	res := make([]variantResult, len(vs))
 	sem := make(chan struct{}, 8)
